@@ -13,9 +13,50 @@ import (
 	cu "verifharness/dom/codecutil"
 )
 
-type klvEnc struct{ e *rtpklv.Encoder }
+type klvEnc struct {
+	e   *rtpklv.Encoder
+	max int
+}
 
-func (x klvEnc) Encode(f cu.Frame) ([]*rtp.Packet, error) { return x.e.Encode(f[0]) }
+// klvLastEarlyCut: the unit encoded last has the shape of the recorded finding
+// klv-multi-item-truncated (see klvEarlyCut); read by the spec's KnownKey.
+var klvLastEarlyCut bool
+
+func (x klvEnc) Encode(f cu.Frame) ([]*rtp.Packet, error) {
+	klvLastEarlyCut = klvEarlyCut(f[0], x.max)
+	return x.e.Encode(f[0])
+}
+
+// klvEarlyCut classifies the shape of the recorded finding: the unit needs several packets, its
+// first packet shows the complete length field of the first KLV item, and the size that item
+// declares is positive and reached before the last packet.
+func klvEarlyCut(u []byte, max int) bool {
+	if max < 17 || len(u) <= max {
+		return false
+	}
+	first := u[:max]
+	b := first[16]
+	var declared uint64
+	switch {
+	case b&0x80 == 0:
+		declared = 17 + uint64(b)
+	default:
+		n := int(b & 0x7f)
+		if n == 0 || n > 8 || 17+n > len(first) {
+			return false
+		}
+		var v uint64
+		for _, c := range first[17 : 17+n] {
+			v = v<<8 | uint64(c)
+		}
+		declared = 17 + uint64(n) + v
+		if v > 1<<62 {
+			return false // not a positive Go int
+		}
+	}
+	npk := (len(u) + max - 1) / max
+	return declared <= uint64((npk-1)*max)
+}
 
 type klvDec struct{ d *rtpklv.Decoder }
 
@@ -155,7 +196,7 @@ func klvNew(gen func(r *rand.Rand, max int) []byte) func(r *rand.Rand, p cu.EncP
 		}
 		return &cu.Instance{
 			PT:  p.PT,
-			Enc: klvEnc{e},
+			Enc: klvEnc{e, p.Max},
 			NewDec: func() cu.Decoder {
 				d := &rtpklv.Decoder{}
 				d.Init() //nolint:errcheck
@@ -190,6 +231,18 @@ var Klv = &cu.Spec{
 	},
 	Classify: klvClassify,
 	New:      klvNew(klvUnit),
+	// a round-trip failure on a unit of the recorded shape is the recorded finding; any other
+	// failure keeps its generic key
+	KnownKey: func(clause, _ string) string {
+		if !klvLastEarlyCut {
+			return ""
+		}
+		switch clause {
+		case "decoding the encoder's packets returns the original frame", "'more packets needed' before the completing packet":
+			return "multi-item-truncated"
+		}
+		return ""
+	},
 	Hostile: func(r *rand.Rand) []byte {
 		// unit starts with hostile length fields, and continuation-looking payloads
 		switch r.IntN(5) {
@@ -216,18 +269,11 @@ var Klv = &cu.Spec{
 	},
 }
 
-// klvMulti is Klv with units of the recorded finding's shape; any round-trip failure on them is
-// reported under the finding's key, everything else under the usual keys.
+// klvMulti is Klv with a generator of units of the recorded finding's shape (Klv.KnownKey
+// recognises the shape from the unit itself).
 var klvMulti = func() *cu.Spec {
 	s := *Klv
 	s.New = klvNew(klvMultiItem)
-	s.KnownKey = func(clause, _ string) string {
-		switch clause {
-		case "decoding the encoder's packets returns the original frame", "'more packets needed' before the completing packet":
-			return "multi-item-truncated"
-		}
-		return ""
-	}
 	return &s
 }()
 
